@@ -178,6 +178,13 @@ func c08Child(scPath string) int {
 				pu := pool[rng.Intn(len(pool))]
 				p.assets = append(p.assets, pu.Spellings[rng.Intn(len(pu.Spellings))])
 			}
+			// assets that redirect to pool URLs: their targets are checked as "seed"-type items in a batch with other items
+			for k := 0; k < rng.Intn(3); k++ {
+				pu := pool[rng.Intn(len(pool))]
+				ru := fmt.Sprintf("/%sredir/c%d-%d", prefix, ci, k)
+				p.assets = append(p.assets, ru)
+				p.nested[ru] = []string{pu.Spellings[rng.Intn(len(pu.Spellings))]}
+			}
 			plans[ci] = p
 		}
 		// JSON assets reference further pool members (absolute spellings only)
@@ -220,6 +227,13 @@ func c08Child(scPath string) int {
 					return &fakeResp{Status: 302, Header: http.Header{"Location": {strings.Trim(p.redirectTo, "'")}}}
 				case it.GetParent() == nil || it.GetParent().GetStatus() == models.ItemGotRedirected && it.GetDepth() == 1:
 					return &fakeResp{Status: 200, Header: http.Header{"Content-Type": {"text/html"}}, Body: []byte(page)}
+				case strings.Contains(wire, "/redir/"):
+					for ru, to := range p.nested {
+						if strings.HasSuffix(wire, ru) {
+							return &fakeResp{Status: 301, Header: http.Header{"Location": {strings.Trim(to[0], "'")}}}
+						}
+					}
+					return leafResp()
 				case strings.Contains(wire, ".json"):
 					return &fakeResp{Status: 200, Header: http.Header{"Content-Type": {"application/json"}}, Body: []byte(nestedOf(r2))}
 				}
